@@ -694,9 +694,9 @@ def nicurve_trace(rng, shape=None):
     x0w = own_weight(x0, basis, mix)
     r = rng.random()
     if r < 0.15:        # the grid ends next to 1: the look-ahead point of the last iteration is just inside or just outside
-        dx = (1.0 - x0w + rng.choice([-1, 1]) * rng.choice([0.0, 1e-12, 1e-3])) / (n + 1 + rng.choice([0, 0, -1]))
+        dx = (1.0 - x0w + rng.choice([-1, 1]) * rng.choice([0.0, 1e-12, 1e-3])) / max(1, n + 1 + rng.choice([0, 0, -1]))
     elif r < 0.3:       # a descending grid, a third of them ending next to 0
-        dx = -dx if rng.random() < 0.66 else -(x0w + rng.choice([-1, 1]) * rng.choice([0.0, 1e-12, 1e-3])) / (n + 1 + rng.choice([0, 0, -1]))
+        dx = -dx if rng.random() < 0.66 else -(x0w + rng.choice([-1, 1]) * rng.choice([0.0, 1e-12, 1e-3])) / max(1, n + 1 + rng.choice([0, 0, -1]))
     if shape is not None:
         # the grid x0w + j dx, j = 0 .. n + 1 (look-ahead point included), stays inside [0,1] or leaves it, upwards or downwards
         room = (1.0 - x0w) if shape["up"] else x0w
